@@ -79,6 +79,7 @@ class Compiler:
     node_pool: list[bny.Node]
     rule_node_ids: dict[str, list[int]]
     temp_tag_index: int = 0
+    next_temp: int = -1
 
     @dataclass
     class RuleChain:
@@ -221,6 +222,28 @@ class Compiler:
                                                                 f'on the right hand side of any pattern constraint')
                     except (KeyError, IndexError):
                         raise SemanticError(f'Pattern {cons.pat.id} never occurs before.')
+        self.next_temp = next_temp
+
+    def _rename_repeated_temps(self, chain: RuleChain, ref_chain: RuleChain):
+        """
+        Every occurrence of a temporary pattern is a pattern of its own.
+        When a rule is referred to more than once in a chain, the temporary tag numbers of the chain
+        inlined later are replaced with fresh ones, in its name as well as in its constraints.
+        """
+        used = {c.id for c in chain.name if isinstance(c, psr.Pattern)}
+        renamed = {}
+        for c in ref_chain.name:
+            if isinstance(c, psr.Pattern) and int(c.id) < 0 and c.id in used and c.id not in renamed:
+                renamed[c.id] = str(self.next_temp)
+                self.next_temp -= 1
+        if not renamed:
+            return ref_chain.name, ref_chain.cons_set
+        name = [psr.Pattern(id=renamed.get(c.id, c.id)) if isinstance(c, psr.Pattern) else c
+                for c in ref_chain.name]
+        cons_set = [psr.TagConstraint(pat=psr.Pattern(id=' '.join(renamed.get(x, x) for x in cons.pat.id.split(' '))),
+                                      options=cons.options)
+                    for cons in ref_chain.cons_set]
+        return name, cons_set
 
     def _replicate_rules(self):
         self.rep_rules = {}
@@ -236,13 +259,14 @@ class Compiler:
                     for chain in cur_chains:
                         chain.name.append(comp)
                 else:
-                    # Note: this repeats temporary tag numbers, which needs to be fixed before emit.
-                    new_chains = [self.RuleChain(id=rule.id.id,
-                                                 name=chain.name+ref_chain.name,
-                                                 cons_set=chain.cons_set+ref_chain.cons_set,
-                                                 sign_cons=chain.sign_cons)
-                                  for ref_chain in self.rep_rules[comp.id]
-                                  for chain in cur_chains]
+                    new_chains = []
+                    for ref_chain in self.rep_rules[comp.id]:
+                        for chain in cur_chains:
+                            ref_name, ref_cons_set = self._rename_repeated_temps(chain, ref_chain)
+                            new_chains.append(self.RuleChain(id=rule.id.id,
+                                                             name=chain.name+ref_name,
+                                                             cons_set=chain.cons_set+ref_cons_set,
+                                                             sign_cons=chain.sign_cons))
                     assert len(new_chains) > 0
                     cur_chains = new_chains
             if rule.id.id not in self.rep_rules:
